@@ -53,6 +53,10 @@ def base_cfg(rng, idx, entry=None, T=None, s=None, n=None, tuned=False, test=Fal
         kinds = rng.sample([0, 1, 2, 3], rng.randrange(0, 5))
         if kinds:
             d["ic"] = sorted(kinds)
+            if rng.random() < 0.4:
+                # registration order is free, and registering a kind again replaces its earlier closure
+                d["ic"] = list(kinds) + rng.sample(list(kinds), rng.randrange(0, len(kinds) + 1))
+                rng.shuffle(d["ic"])
             d["icmul"] = rng.choice([1, 3, 1000])
             d["icadd"] = rng.choice([0, 5])
     if rng.random() < 0.3:
@@ -206,6 +210,10 @@ def gen_c02(tier, seed):
             d["cbase"] = rng.choice([7, 60, 500])
         if rng.random() < 0.05:
             d["test"] = 1
+        elif "s" in d and d["caops"] and rng.random() < 0.1:
+            # the real OS clock: nothing scripted, so the real calibration / overhead code runs (once per process and timer)
+            d["tsc"] = 0
+            d["n"] = min(d["n"], 5)
         elif "s" in d and rng.random() < 0.25:
             # a clock too coarse to see the sample: start and end readings are often identical
             d["q"] = rng.choice([100, 10 ** 4, 10 ** 6])
